@@ -184,6 +184,8 @@ def ctx_ops(c):
         ['addtsec %s %s %s' % (c, enc(b'mt'), enc(b'b'))],
         ['set_pf %s/i 1' % c],
         ['set_pf_name %s %s 1' % (c, enc(b's'))],
+        ['cb_fail 1', 'parse_buf %s %s' % (c, enc(b'il += {9} s = "abc'))],     # a text refused inside a string: whatever it leaves behind is not the other context's business
+        ['cb_fail 1', 'parse_buf %s %s' % (c, enc(b'i = 8 /* abc'))],
         ['cb_fail 1', 'parse_buf %s %s' % (c, enc(b'm { }')), 'set_pf_name %s %s 1' % (c, enc(b'm|x')), 'set_vf %s %s 1' % (c, enc(b'm|y'))],
     ]
 
